@@ -10,6 +10,7 @@
 #include <sched.h>
 
 #include <atomic>
+#include <mutex>
 #include <thread>
 
 #include "common/engine.hpp"
@@ -30,6 +31,7 @@ struct Op {
   int kind;
   int slot, slot2;
   int a, b;         // small selectors
+  int burst = 1;    // O_WRITE / O_READFILE: repeated that often in a row (short windows need many tries to overlap)
   std::string s1, s2;
 };
 struct Program {
@@ -105,20 +107,33 @@ static void exec_program(const Program &P, std::vector<uint64_t> &dig) {
         break;
       case O_WRITE:
         if (!kf) break;
-        e = econf_writeFile(kf, P.dir.c_str(), "written.conf");
-        if (e == ECONF_SUCCESS) {
-          std::string b;
-          read_file_bytes(P.dir + "/written.conf", b);
-          h = fnv(b, h);
+        for (int rep = 0; rep < op.burst; rep++) {
+          // (the file is created anew every time, so that its mode is the one this write gave it)
+          unlink((P.dir + "/written.conf").c_str());
+          e = econf_writeFile(kf, P.dir.c_str(), "written.conf");
+          if (e == ECONF_SUCCESS) {
+            std::string b;
+            read_file_bytes(P.dir + "/written.conf", b);
+            h = fnv(b, h);
+            struct stat wst;
+            if (stat((P.dir + "/written.conf").c_str(), &wst) == 0) h = fnv_u64((uint64_t)(wst.st_mode & 07777), h);
+          }
+          h = fnv_u64((uint64_t)e, h);
         }
         break;
       case O_READFILE: {
         if (kf) econf_freeFile(kf);
         kf = nullptr;
         // half of the reads name the file relative to the (common) working directory
-        std::string f = (op.b % 2 ? P.rel : P.dir) + (op.a == 3 ? std::string("/big.conf") : "/file" + std::to_string(op.a) + ".conf");
-        e = econf_readFile(&kf, f.c_str(), op.s1.c_str(), op.s2.c_str());
-        if (e != ECONF_SUCCESS) kf = nullptr;
+        // (op.a == 4: a directory where a file is expected - read as a file without content)
+        std::string f = (op.b % 2 ? P.rel : P.dir) + (op.a == 4 ? std::string("/l1") : op.a == 3 ? std::string("/big.conf") : "/file" + std::to_string(op.a) + ".conf");
+        for (int rep = 0; rep < op.burst; rep++) {
+          if (kf) econf_freeFile(kf);
+          kf = nullptr;
+          e = econf_readFile(&kf, f.c_str(), op.s1.c_str(), op.s2.c_str());
+          if (e != ECONF_SUCCESS) kf = nullptr;
+          if (op.burst > 1) h = fnv_u64((uint64_t)e * 31 + (kf ? dump_hash(kf, P.dir) : 0), h);
+        }
         break;
       }
       case O_READCONFIG: {
@@ -230,6 +245,8 @@ static Program gen_program(Src &s, const std::string &dir, bool &reads, bool &wr
   if (s.chance(60)) write_file(dir + "/l1/app.conf.d/10-a.conf", snip[s.below(4)]);
   if (s.chance(60)) write_file(dir + "/l2/app.conf.d/10-a.conf", snip[s.below(4)]);
   if (s.chance(40)) write_file(dir + "/l2/app.conf.d/20-b.conf", s.chance(20) ? "[]\n" : snip[s.below(4)]);
+  // a sub-directory that carries a drop-in name (consulted like a file without content)
+  if (s.chance(25)) mkdir_p(dir + "/l2/app.conf.d/90-dir.conf");
   int n = 20 + (int)s.below(100);
   for (int i = 0; i < n; i++) {
     auto sp = s.span();
@@ -251,17 +268,138 @@ static Program gen_program(Src &s, const std::string &dir, bool &reads, bool &wr
       case O_READFILE:
         op.a = (int)s.below(5);
         if (op.a >= 3) op.a = 3;  // 40 %: the big file
+        if (s.chance(8)) op.a = 4;
+        if (op.a != 3 && s.chance(25)) op.burst = 50 + (int)s.below(250);
         op.s1 = (op.a == 3 || s.chance(80)) ? "=" : " =";
         op.s2 = "#";
         reads = true;
         break;
       case O_READCONFIG: op.a = (int)s.below(2); op.b = (int)s.below(2); reads = true; break;
-      case O_WRITE: writes = true; break;
+      case O_WRITE:
+        writes = true;
+        if (s.chance(25)) op.burst = 50 + (int)s.below(250);
+        break;
       default: break;
     }
     P.ops.push_back(op);
   }
   return P;
+}
+
+// ------------------------------------------------------------------ storms
+// Hot loops: every thread repeats one kind of operation thousands of times on its own objects and files, all
+// threads at once. Windows of a microsecond (a process-wide setting changed and restored around a system call, a
+// descriptor closed twice) are only met by volume. Each thread checks every single result against what the same
+// operation gives single-threaded; nothing here depends on ThreadSanitizer seeing the conflict.
+static int mode_storm(int T, int iters) {
+  // (if the process dies in the storm - a sanitizer that halts, a signal - this is the replay file that remains)
+  write_mode_case("storm " + std::to_string(T) + " " + std::to_string(iters), "crash", "the process did not survive the storm (sanitizer report or signal: see the log)");
+  clear_dir(g_scr.dir);
+  std::atomic<long> bad{0};
+  std::string first_bad;
+  std::mutex mu;
+  auto report = [&](const std::string &m) {
+    if (bad++ == 0) {
+      std::lock_guard<std::mutex> lk(mu);
+      first_bad = m;
+    }
+  };
+  const mode_t mask_before = umask(027);
+  econf_requirePermissions(S_IRUSR | S_IWUSR, S_IXUSR);  // in force before any thread starts; every file below satisfies it
+  // reference results, single-threaded
+  auto tdir = [&](int t) { return g_scr.dir + "/s" + std::to_string(t); };
+  for (int t = 0; t < T; t++) {
+    mkdir_p(tdir(t) + "/usr");
+    mkdir_p(tdir(t) + "/etc/app.conf.d/90-dir.conf");  // a directory that carries a drop-in name
+    write_file(tdir(t) + "/usr/app.conf", "a=usr" + std::to_string(t) + "\n[S]\nb=1\n");
+    write_file(tdir(t) + "/etc/app.conf.d/10-x.conf", "c=drop" + std::to_string(t) + "\n");
+  }
+  auto one_round = [&](int t, int i, mode_t &mode, std::string &view) {
+    econf_file *kf = nullptr;
+    econf_newKeyFile(&kf, '=', '#');
+    econf_setStringValue(kf, "S", "k", ("v" + std::to_string(t) + "-" + std::to_string(i % 7)).c_str());
+    std::string out = tdir(t) + "/w.conf";
+    unlink(out.c_str());
+    econf_err e = econf_writeFile(kf, tdir(t).c_str(), "w.conf");
+    econf_freeFile(kf);
+    struct stat st;
+    mode = (e == ECONF_SUCCESS && stat(out.c_str(), &st) == 0) ? (st.st_mode & 07777) : (mode_t)07777;
+    econf_file *rd = nullptr;
+#pragma GCC diagnostic push
+#pragma GCC diagnostic ignored "-Wdeprecated-declarations"
+    e = econf_readDirs(&rd, (tdir(t) + "/usr").c_str(), (tdir(t) + "/etc").c_str(), "app", "conf", "=", "#");
+#pragma GCC diagnostic pop
+    view = "rc=" + std::to_string(e);
+    if (e == ECONF_SUCCESS && rd) {
+      view += show(observe(rd));
+      econf_freeFile(rd);
+    }
+    econf_file *w = nullptr;
+    e = econf_readFile(&w, out.c_str(), "=", "#");
+    view += " w:rc=" + std::to_string(e);
+    if (e == ECONF_SUCCESS && w) {
+      view += show(observe(w));
+      econf_freeFile(w);
+    }
+    if (t % 2 == 0) {
+      // a directory where a file is expected
+      econf_file *d = nullptr;
+      e = econf_readFile(&d, (tdir(t) + "/etc").c_str(), "=", "#");
+      view += " d:rc=" + std::to_string(e);
+      if (d) econf_freeFile(d);
+    }
+  };
+  std::vector<mode_t> ref_mode((size_t)T);
+  std::vector<std::vector<std::string>> ref_view((size_t)T, std::vector<std::string>(7));
+  for (int t = 0; t < T; t++)
+    for (int i = 0; i < 7; i++) one_round(t, i, ref_mode[(size_t)t], ref_view[(size_t)t][(size_t)i]);
+  int before = g_tsan_reports.load();
+  pthread_barrier_t bar;
+  pthread_barrier_init(&bar, nullptr, (unsigned)T);
+  std::vector<std::thread> th;
+  for (int t = 0; t < T; t++)
+    th.emplace_back([&, t] {
+      pthread_barrier_wait(&bar);
+      for (int i = 0; i < iters; i++) {
+        mode_t m;
+        std::string v;
+        one_round(t, i, m, v);
+        if (m != ref_mode[(size_t)t]) report("thread " + std::to_string(t) + " round " + std::to_string(i) + ": written file has mode 0" + std::to_string((m >> 6) & 7) + std::to_string((m >> 3) & 7) + std::to_string(m & 7) + ", alone it has 0" + std::to_string((ref_mode[(size_t)t] >> 6) & 7) + std::to_string((ref_mode[(size_t)t] >> 3) & 7) + std::to_string(ref_mode[(size_t)t] & 7));
+        if (v != ref_view[(size_t)t][(size_t)(i % 7)]) report("thread " + std::to_string(t) + " round " + std::to_string(i) + ": results differ from the single-threaded ones:\n" + v + "\nalone:\n" + ref_view[(size_t)t][(size_t)(i % 7)]);
+      }
+    });
+  for (auto &x : th) x.join();
+  pthread_barrier_destroy(&bar);
+  econf_reset_security_settings();
+  mode_t mask_after = umask(mask_before);
+  int reports = g_tsan_reports.load() - before;
+  g_case.clear();
+  g_case.evals = (uint64_t)T * (uint64_t)iters * 4;
+  g_case.nontrivial = true;
+  g_case.shape_hash = fnv_u64((uint64_t)T * 1000003 + (uint64_t)iters, 0x5707);
+  g_case.tag("storm");
+  g_case.desc = "storm: " + std::to_string(T) + " threads x " + std::to_string(iters) + " rounds of write / layered read / single read / directory read on private trees, permission requirement in force";
+  std::string sym, det;
+  if (bad.load()) {
+    sym = "thread-result-differs";
+    det = std::to_string(bad.load()) + " deviating results; first: " + first_bad;
+  } else if (mask_after != 027) {
+    sym = "process-state-changed";
+    char b[64];
+    snprintf(b, sizeof b, "the file creation mask of the process is %04o after the storm, it was 0027", (unsigned)mask_after);
+    det = b;
+  } else if (reports) {
+    sym = "data-race";
+    det = "ThreadSanitizer reported " + std::to_string(reports) + " issue(s) during the storm";
+  }
+  if (!sym.empty()) {
+    printf("FAIL %s: %s\n", sym.c_str(), det.c_str());
+    write_mode_case("storm " + std::to_string(T) + " " + std::to_string(iters), sym, det);
+    stats_commit_case();
+    return 10;
+  }
+  stats_commit_case();
+  return 0;
 }
 
 static void run(Src &s) {
@@ -287,6 +425,14 @@ static void run(Src &s) {
   // the first to touch whatever the library initialises lazily or keeps process-wide
   std::vector<std::vector<uint64_t>> ref(progs.size()), got(progs.size());
   const bool concurrent_first = s.chance(50);
+  // a process-wide setting made once, before any thread starts (every generated file and directory satisfies it)
+  struct ResetGuard {
+    ~ResetGuard() { econf_reset_security_settings(); }
+  } reset_guard;
+  if (s.chance(15)) {
+    econf_requirePermissions(S_IRUSR, S_IXUSR);
+    g_case.tag("permission_requirement_in_force");
+  }
   if (concurrent_first) g_case.tag("concurrent_run_first");
   if (!concurrent_first)
     for (size_t i = 0; i < progs.size(); i++) exec_program(progs[i], ref[i]);
@@ -345,6 +491,10 @@ int main(int argc, char **argv) {
   h.teardown = [] {
     if (chdir("/") != 0) perror("chdir");
     g_scr.cleanup();
+  };
+  h.extra = [](const std::string &mode, int argc, char **argv) -> int {
+    if (mode == "storm" && argc >= 2) return mode_storm(atoi(argv[0]), atoi(argv[1]));
+    return -1;
   };
   return engine_main(argc, argv, h);
 }
